@@ -121,6 +121,8 @@ def run(ctx):
             kind = {"Different vocabularies": "different-vocab", "Dimensionality mismatch": "dim-mismatch",
                     "Incompatible types": "incompatible"}.get(msg.split(":")[0], "other:" + msg[:40])
             impl = ("err", kind)
+        except Exception as e:  # not the documented type error
+            impl = ("err", "other:" + type(e).__name__)
         distinct = len(set(toks))
         ctx.count("coerce " + case["types"], nontrivial=distinct >= 2,
                   branch=f"tuple-len{len(toks)}-{impl[0]}" + ("" if impl[0] == "ok" else "-" + impl[1]))
